@@ -284,6 +284,13 @@ impl Prop for C20 {
     fn id(&self) -> &'static str {
         "C20"
     }
+    fn fuzz_target(&self) -> Option<&'static str> {
+        Some("fz_choices")
+    }
+    fn fuzz_runs(&self) -> u64 {
+        // three table constructions per case, boundary families of hundreds of symbols
+        40_000
+    }
     fn stream_len(&self, _tier: Tier) -> usize {
         1000
     }
